@@ -88,6 +88,8 @@ class SimCluster:
                 j["in_queue"] = in_queue
             if acct == "same":
                 j["acct"] = {"phase": phase, "exit": exit, "code": code}
+                if phase == "cancelled" and int(j["id"]) % 2 == 0:
+                    j["acct"]["by"] = "1000"  # sacct then prints "CANCELLED by 1000"
             elif acct is not None:
                 j["acct"] = acct
             j["submit_seq"] = s.next_seq()
@@ -150,6 +152,8 @@ class SimCluster:
             j = s.state["jobs"][jid]
             j["phase"] = "cancelled"
             j["end_seq"] = s.journal({"kind": "event", "event": "cancel", "id": jid, "name": j["name"]})
+            if by is None and int(jid) % 2 == 0:
+                by = "1000"
             if not s.state["config"].get("acct_lag"):
                 j["acct"] = {"phase": "cancelled", "exit": None, "code": None, "by": by}
 
